@@ -317,3 +317,129 @@ Proof.
   - intros m Hm. rewrite R1 in Hm. unfold has_key. unfold x1. rewrite (kkeep_mutate_kind k sh (s, a)). cbn [snd]. auto.
   - rewrite R1. auto.
 Qed.
+
+(* ---- the network attributes of an individual are the same before and after any mutation ------------- *)
+Definition akeep (f : lstate -> lstate) : Prop := forall x, net_names (snd (f x)) = net_names (snd x).
+
+Lemma akeep_realloc k srcs : akeep (realloc k srcs).
+Proof. intros x. rewrite realloc_agent. reflexivity. Qed.
+Lemma akeep_wfresh k : akeep (wfresh k).
+Proof. intros x. reflexivity. Qed.
+Lemma akeep_wcopy kd ks : akeep (wcopy kd ks).
+Proof. intros x. unfold wcopy. destruct (Nat.eqb _ _); reflexivity. Qed.
+Lemma akeep_pure f : (forall a, net_names (f a) = net_names a) -> akeep (pure f).
+Proof. intros H x. unfold pure. cbn [snd]. apply H. Qed.
+Lemma akeep_pure_setN (g : agent -> name * N) : akeep (pure (fun a => with_arch a (setN (fst (g a)) (snd (g a)) (a_arch a)))).
+Proof. apply akeep_pure. intros a. unfold net_names. cbn [with_arch a_arch]. apply setN_keys. Qed.
+Lemma akeep_seqL fs : Forall akeep fs -> akeep (seqL fs).
+Proof.
+  induction fs as [|f r IH]; intros H x; [reflexivity|]. inversion H; subst. rewrite seqL_cons, (IH H3), (H2 x). reflexivity.
+Qed.
+Lemma akeep_dep (F : lstate -> lstate -> lstate) : (forall y, akeep (F y)) -> akeep (fun x => F x x).
+Proof. intros H x. exact (H x x). Qed.
+
+Ltac ak := repeat first [ apply akeep_realloc | apply akeep_wfresh | apply akeep_wcopy
+                        | apply akeep_pure; intros; reflexivity | apply Forall_nil | apply Forall_cons ].
+
+Lemma akeep_reinit_opts w : akeep (reinit_opts w).
+Proof.
+  unfold reinit_opts. apply (akeep_dep (fun y => seqL (map reinit_one (filter w (r_opts (a_reg (snd y))))))).
+  intros y. apply akeep_seqL. apply Forall_forall. intros f Hf. apply in_map_iff in Hf as (c & <- & _).
+  unfold reinit_one. apply akeep_seqL. ak.
+Qed.
+
+Lemma akeep_run_hooks : akeep run_hooks.
+Proof.
+  unfold run_hooks. apply (akeep_dep (fun y => seqL (map run_hook (r_hooks (a_reg (snd y)))))).
+  intros y. apply akeep_seqL. apply Forall_forall. intros f Hf. apply in_map_iff in Hf as (h & <- & _).
+  destruct h as [e t|p others|]; unfold run_hook.
+  - intros x. match goal with |- context [if ?b then _ else _] => destruct b end; [|reflexivity].
+    apply (akeep_seqL [wcopy (t, cEnc) (e, cEnc); wcopy (t, cHead) (e, cHead); wcopy (t, cBuf) (e, cBuf)]). ak.
+  - apply akeep_seqL. induction others as [|o r IH]; cbn [flat_map app]; [constructor|].
+    apply Forall_cons; [|apply Forall_cons; [|apply Forall_cons; [|exact IH]]].
+    + apply (akeep_dep (fun y0 => realloc (o, cHenc) (map CopyOf (blk (snd y0) (p, cEnc))))). intros; apply akeep_realloc.
+    + apply akeep_realloc.
+    + apply akeep_wfresh.
+  - apply (akeep_dep (fun y0 => realloc kExt (map (fun _ => FreshV) (blk (snd y0) kExt)))). intros; apply akeep_realloc.
+Qed.
+
+Lemma akeep_rebuild_eval sh : akeep (rebuild_eval sh).
+Proof.
+  unfold rebuild_eval. apply akeep_seqL.
+  repeat (apply Forall_cons; [first [apply akeep_realloc | apply (akeep_pure_setN (fun _ => (ns_name sh, ns_arch sh)))]|]). apply Forall_nil.
+Qed.
+
+Lemma akeep_rebuild_shared_one e s : akeep (rebuild_shared_one e s).
+Proof.
+  unfold rebuild_shared_one. apply (akeep_dep (fun y => seqL
+     [ realloc (s, cEnc) (map CopyOf (blk (snd y) (e, cEnc)) ++ repeat FreshV (length (blk (snd y) (e, cHenc))));
+       realloc (s, cHead) (map CopyOf (blk (snd y) (e, cHead)));
+       realloc (s, cHenc) [];
+       realloc (s, cConst) (map CopyOf (blk (snd y) (e, cConst)));
+       realloc (s, cCfg) (map CopyOf (blk (snd y) (e, cCfg)));
+       realloc (s, cBuf) (map CopyOf (blk (snd y) (e, cBuf)));
+       pure (fun a' => with_arch a' (setN s (lookupN 0 e (a_arch a')) (a_arch a'))) ])).
+  intros y. apply akeep_seqL.
+  repeat (apply Forall_cons; [first [apply akeep_realloc | apply (akeep_pure_setN (fun a' => (s, lookupN 0 e (a_arch a'))))]|]). apply Forall_nil.
+Qed.
+
+Lemma akeep_rebuild_shared : akeep rebuild_shared.
+Proof.
+  unfold rebuild_shared.
+  apply (akeep_dep (fun y => seqL (flat_map (fun g => map (fun s z => rebuild_shared_one (g_eval g) s z) (g_shared g))
+                                            (r_groups (a_reg (snd y)))))).
+  intros y. apply akeep_seqL. apply Forall_forall. intros f Hf. apply in_flat_map in Hf as (g & _ & Hf).
+  apply in_map_iff in Hf as (s & <- & _). apply akeep_rebuild_shared_one.
+Qed.
+
+Lemma akeep_mutate_kind k sh : akeep (mutate_kind k sh).
+Proof.
+  destruct k as [| | | |h v]; unfold mutate_kind.
+  - intros x. reflexivity.
+  - apply akeep_seqL. apply Forall_app. split.
+    + apply Forall_forall. intros f Hf. apply in_map_iff in Hf as (s & <- & _). apply akeep_rebuild_eval.
+    + constructor; [apply akeep_run_hooks|constructor; [apply akeep_reinit_opts|constructor]].
+  - apply (akeep_dep (fun y => seqL [wfresh (policy_name (a_reg (snd y)), cEnc); wfresh (policy_name (a_reg (snd y)), cHead);
+                                      wfresh (policy_name (a_reg (snd y)), cBuf); reinit_opts (fun _ => true)])).
+    intros y. apply akeep_seqL. repeat (apply Forall_cons; [first [apply akeep_wfresh|apply akeep_reinit_opts]|]). apply Forall_nil.
+  - intros x. destruct (r_act_skip (a_reg (snd x))); [reflexivity|].
+    apply (akeep_seqL (map rebuild_eval sh ++ [reinit_opts (fun _ => true)])). apply Forall_app. split.
+    + apply Forall_forall. intros f Hf. apply in_map_iff in Hf as (s & <- & _). apply akeep_rebuild_eval.
+    + constructor; [apply akeep_reinit_opts|constructor].
+  - apply akeep_seqL. constructor; [apply akeep_pure; intros; reflexivity|].
+    constructor; [apply akeep_wfresh|]. constructor; [apply akeep_reinit_opts|constructor].
+Qed.
+
+Lemma akeep_mutate_agent k sh label : akeep (mutate_agent k sh label).
+Proof.
+  unfold mutate_agent. apply akeep_seqL.
+  constructor; [apply akeep_mutate_kind|]. constructor; [apply akeep_rebuild_shared|].
+  constructor; [apply akeep_run_hooks|]. constructor; [apply akeep_pure; intros; reflexivity|constructor].
+Qed.
+
+(* MUTATE, THEN LEARN: after any mutation of a coherent individual, one learn step writes every cell an optimizer of the
+   MUTATED individual references (no optimizer is left pointing at tensors that training does not reach) *)
+Lemma learn_after_mutation_moves_lemma k sh label st s a :
+  wf_registry (a_reg a) = true -> Coherent a ->
+  (forall c n, In c (r_opts (a_reg a)) -> In n (oc_nets c) -> In n (net_names a)) ->
+  Forall (fun l => l < s_next s) (agent_locs a) ->
+  let x' := mutate_agent k sh label (s, a) in
+  forall o l, In o (a_opts (snd x')) -> In l (o_refs o) ->
+  s_fresh (fst x') <= rd (fst (learn_agent st x')) l.
+Proof.
+  intros W C Hn B. cbv zeta. intros o l Ho Hl.
+  set (x' := mutate_agent k sh label (s, a)) in *.
+  rewrite (surjective_pairing x'). apply (learn_moves_lemma st (fst x') (snd x') o l); auto.
+  - apply mutate_agent_coherent; auto.
+  - unfold x'. rewrite mutate_agent_reg, (akeep_mutate_agent k sh label (s, a)). cbn [snd]. exact Hn.
+  - apply (local_ok_bounded (mutate_agent k sh label) (s, a)); [apply local_ok_mutate|exact B].
+Qed.
+
+(* Mutations.mutation(population) with fewer draws than members leaves the remaining members exactly as they were *)
+Lemma mutate_from_after ds : forall i w j, (i + length ds <= j)%nat ->
+  nth_error (w_pop (mutate_from i ds w)) j = nth_error (w_pop w) j.
+Proof.
+  induction ds as [|[[k sh] lab] r IH]; intros i w j H; cbn [mutate_from]; auto. cbn [length] in H.
+  rewrite IH by lia. cbn [step]. unfold apply_local. destruct (nth_error (w_pop w) i); auto. cbn [w_pop].
+  apply nth_error_update_ne. lia.
+Qed.
